@@ -20,7 +20,7 @@ CLAUSES = {
     "C04": ["C04_list", "C04_count", "C04_owned", "C04_status"],
     "C05": ["C05_noblock", "C05_readnow", "C05_bound"],
     "C09": ["C09_spawn", "C09_reap", "C09_live", "C09_startstop"],
-    "C10": ["C10_wedge", "C10_refuse", "C10_accept"],
+    "C10": ["C10_wedge", "C10_refuse", "C10_accept", "C10_held"],
     "C13": ["C13_wid"],
     "C14": ["C14_startgate", "C14_siggate", "C14_events", "C14_killsent"],
     "C15": ["C15_dir", "C15_views", "C15_addrm"],
